@@ -896,7 +896,7 @@ def run(ctx):
     tier = ctx.tier
     n1 = e1_units(tier)
     n2 = e2_units(tier)
-    nsampled = ctx.pick(600, 6400)
+    nsampled = ctx.pick(440, 6400)
     total = n1 + n2 + nsampled
     per_shard = -(-total // ctx.nshards)
     try:
